@@ -610,7 +610,7 @@ func synthArg(ty reflect.Type, p *prng, ctx context.Context) (reflect.Value, boo
 		fillMessage(v.Interface().(proto.Message).ProtoReflect(), p, 2)
 		return v, true
 	case ty.Kind() == reflect.String:
-		return reflect.ValueOf([]string{"a", "b", "m1"}[p.n(3)]).Convert(ty), true
+		return reflect.ValueOf(p.poolID()).Convert(ty), true
 	case ty.Kind() == reflect.Bool:
 		return reflect.ValueOf(p.n(2) == 0).Convert(ty), true
 	case ty.Kind() >= reflect.Int && ty.Kind() <= reflect.Int64:
@@ -824,11 +824,20 @@ func aliasReflective(w *World) {
 	}
 	nsub := 0
 	n := 2 + t.Choose(8)
+	var writers []int
+	for i, x := range ms {
+		if !x.readOnly && !strings.HasPrefix(x.m.Name, "Pull") {
+			writers = append(writers, i)
+		}
+	}
 	w.Go("w", false, func(task *Task) {
 		harvest()
 		for i := 0; i < n; i++ {
 			task.Yield("op")
 			x := ms[t.Choose(len(ms))]
+			if i < 2 && len(writers) > 0 && t.Flag(1, 2) {
+				x = ms[writers[t.Choose(len(writers))]] // often: start by putting something into the model
+			}
 			desc := me.Pkg + ".Model." + x.m.Name
 			if x.server {
 				desc = me.Pkg + ".ModelServer." + x.m.Name
@@ -915,13 +924,23 @@ func aliasReflective(w *World) {
 	w.Run()
 }
 
+// poolID draws an id from the small pool; half of the time the one drawn last (calls that follow each other tend to be
+// about the same thing).
+func (p *prng) poolID() string {
+	if p.last != "" && p.n(2) == 0 {
+		return p.last
+	}
+	p.last = []string{"a", "b", "m1"}[p.n(3)]
+	return p.last
+}
+
 // poolStrings sets top-level string fields to ids from the small pool that string arguments are drawn from.
 func poolStrings(m protoreflect.Message, p *prng) {
 	fds := m.Descriptor().Fields()
 	for i := 0; i < fds.Len(); i++ {
 		fd := fds.Get(i)
 		if fd.Kind() == protoreflect.StringKind && !fd.IsList() && !fd.IsMap() && p.n(2) == 0 {
-			m.Set(fd, protoreflect.ValueOfString([]string{"a", "b", "m1"}[p.n(3)]))
+			m.Set(fd, protoreflect.ValueOfString(p.poolID()))
 		}
 	}
 }
